@@ -80,6 +80,7 @@ type walletWorld struct {
 	unconfID     types.SiacoinOutputID
 	unconfValue  uint64
 	unconfLocked bool
+	unconfSpent  bool // already spent by another pooled v2 transaction
 }
 
 func utxoID(k int) (id types.SiacoinOutputID) {
@@ -141,9 +142,15 @@ func newWalletWorld(n int) *walletWorld {
 		creator := types.V2Transaction{ArbitraryData: []byte{0x42}, SiacoinOutputs: []types.SiacoinOutput{{Value: types.NewCurrency64(ww.unconfValue), Address: addr}}}
 		ww.cm.v2 = append(ww.cm.v2, creator)
 		ww.unconfID = creator.EphemeralSiacoinOutput(0).ID
-		if vapi.Bool("unconfirmed-reserved") {
+		switch vapi.Int("unconfirmed-state", 0, 2) {
+		case 1:
 			ww.unconfLocked = true
 			w.locked[ww.unconfID] = time.Now().Add(time.Hour)
+		case 2:
+			// another pooled transaction already spends it (and its reservation
+			// is gone, e.g. after a restart that reloaded the broadcast sets)
+			ww.unconfSpent = true
+			ww.cm.v2 = append(ww.cm.v2, types.V2Transaction{ArbitraryData: []byte{0x43}, SiacoinInputs: []types.V2SiacoinInput{{Parent: creator.EphemeralSiacoinOutput(0)}}})
 		}
 	}
 	return ww
@@ -183,7 +190,7 @@ func verifFundWallet(maxUtxos int) {
 		}
 	}
 	useUnconfirmed := vapi.Bool("use-unconfirmed")
-	if useUnconfirmed && ww.hasUnconf && !ww.unconfLocked {
+	if useUnconfirmed && ww.hasUnconf && !ww.unconfLocked && !ww.unconfSpent {
 		total += ww.unconfValue
 	}
 	lockedBefore := len(w.locked)
@@ -249,6 +256,7 @@ func verifFundWallet(maxUtxos int) {
 		if ww.hasUnconf && id == ww.unconfID {
 			vapi.Assert("select.unconfirmed-only-when-asked", useUnconfirmed)
 			vapi.Assert("select.unconfirmed-not-reserved", !ww.unconfLocked)
+			vapi.Assert("select.unconfirmed-not-spent-in-pool", !ww.unconfSpent)
 			vapi.Assert("select.once", !usedUnconf)
 			usedUnconf = true
 			sum += ww.unconfValue
@@ -305,7 +313,7 @@ func verifFundWallet(maxUtxos int) {
 		for _, i := range toSign3 {
 			id := txn3.SiacoinInputs[i].Parent.ID
 			if ww.hasUnconf && id == ww.unconfID {
-				vapi.Assert("disjoint.unconfirmed-second-call", !usedUnconf && !ww.unconfLocked)
+				vapi.Assert("disjoint.unconfirmed-second-call", !usedUnconf && !ww.unconfLocked && !ww.unconfSpent)
 			} else {
 				k := ww.indexOf(id)
 				vapi.Assert("disjoint.second-call", k >= 0 && !seen[k])
@@ -343,4 +351,81 @@ func VerifH_C07_agree() {
 	}
 	vapi.Assert("agree.outputs-sum", sum == types.NewCurrency64(total))
 	vapi.Reach("agree")
+}
+
+// VerifH_C07_redistribute: Redistribute reserves exactly the outputs its
+// returned transactions spend, never one output twice, only spendable ones,
+// and every returned transaction is balanced and pays the wallet.
+//
+//verif:harness prop=C07 tier=quick replay=native require=redistributed,refused bounds="wallet of 2..3 mature outputs with symbolic 24-bit values, each free / reserved / spent in the pool; 1 or 11 requested outputs (one or two batches) of a symbolic amount; no fee"
+func VerifH_C07_redistribute() {
+	priv := types.NewPrivateKeyFromSeed(make([]byte, 32))
+	addr := types.StandardUnlockHash(priv.PublicKey())
+	tip := types.ChainIndex{Height: 100, ID: types.BlockID{9}}
+	store, cm := &vStore{tip: tip}, &vCM{tip: tip}
+	w := &SingleAddressWallet{priv: priv, addr: addr, cm: cm, store: store, cfg: config{ReservationDuration: time.Hour, Log: zap.NewNop()}, log: zap.NewNop(),
+		locked: make(map[types.SiacoinOutputID]time.Time)}
+	n := vapi.Int("outputs", 2, 3)
+	usable := map[types.SiacoinOutputID]bool{}
+	for k := 0; k < n; k++ {
+		v := vapi.UBits("value", 24)
+		vapi.Assume(v >= 1)
+		sce := types.SiacoinElement{ID: utxoID(k), StateElement: types.StateElement{LeafIndex: uint64(k)},
+			SiacoinOutput: types.SiacoinOutput{Value: types.NewCurrency64(v), Address: addr}, MaturityHeight: 50}
+		store.utxos = append(store.utxos, sce)
+		switch vapi.Int("state", 0, 2) {
+		case 0:
+			usable[sce.ID] = true
+		case 1:
+			w.locked[sce.ID] = time.Now().Add(time.Hour)
+		case 2:
+			cm.v2 = append(cm.v2, types.V2Transaction{SiacoinInputs: []types.V2SiacoinInput{{Parent: sce.Copy()}}})
+		}
+	}
+	want := []int{1, 11}[vapi.Int("requested", 0, 1)]
+	amt := vapi.UBits("amount", 20)
+	vapi.Assume(amt >= 1)
+	lockedBefore := map[types.SiacoinOutputID]bool{}
+	for id := range w.locked {
+		lockedBefore[id] = true
+	}
+	_, txns, toSign, err := w.Redistribute(want, types.NewCurrency64(amt), types.ZeroCurrency)
+	if err != nil {
+		vapi.Reach("refused")
+		vapi.Assert("redistribute.fail-reserves-nothing", len(w.locked) == len(lockedBefore))
+		return
+	}
+	if len(txns) > 0 {
+		vapi.Reach("redistributed")
+	}
+	vapi.Assert("redistribute.to-sign-per-transaction", len(toSign) == len(txns))
+	used := map[types.SiacoinOutputID]bool{}
+	for _, txn := range txns {
+		var in, out types.Currency
+		for _, sci := range txn.SiacoinInputs {
+			id := sci.Parent.ID
+			vapi.Assert("redistribute.input-once", !used[id])
+			used[id] = true
+			vapi.Assert("redistribute.input-spendable", usable[id])
+			in = in.Add(sci.Parent.SiacoinOutput.Value)
+		}
+		for _, o := range txn.SiacoinOutputs {
+			vapi.Assert("redistribute.pays-the-wallet", o.Address == w.addr)
+			out = out.Add(o.Value)
+		}
+		vapi.Assert("redistribute.balanced", in == out.Add(txn.MinerFee))
+	}
+	// reservations: exactly the inputs of the returned transactions are new
+	for id := range w.locked {
+		if !lockedBefore[id] {
+			vapi.Assert("redistribute.reserves-only-what-it-spends", used[id])
+		}
+	}
+	for id := range used {
+		_, ok := w.locked[id]
+		vapi.Assert("redistribute.reserves-what-it-spends", ok)
+	}
+	// releasing the returned transactions frees everything again
+	w.ReleaseInputs(nil, txns)
+	vapi.Assert("redistribute.release-restores", len(w.locked) == len(lockedBefore))
 }
